@@ -3612,8 +3612,18 @@ static Node *primary(Token **rest, Token *tok) {
   }
 
   if (equal(tok, "sizeof") && equal(tok->next, "(") && is_typename(tok->next->next)) {
+    Token *operand = tok->next;
     Type *ty = typename(&tok, tok->next->next);
-    *rest = skip(tok, ")");
+    tok = skip(tok, ")");
+
+    // "sizeof (T){...}": the operand is a compound literal, which is
+    // a unary expression, not a parenthesized type name.
+    if (equal(tok, "{")) {
+      Node *node = unary(rest, operand);
+      add_type(node);
+      return new_ulong(node->ty->size, start);
+    }
+    *rest = tok;
 
     if (ty->kind == TY_VLA) {
       if (ty->vla_size)
